@@ -265,6 +265,7 @@ PURE_EXTERNALS = {
     'builtins.set.union': set.union,
     'builtins.str.lower': str.lower, 'builtins.str.upper': str.upper,
     'builtins.str.strip': str.strip, 'builtins.str.join': str.join,
+    'builtins.str.maketrans': str.maketrans,
     'itertools.chain': lambda *a: list(itertools.chain(*a)),
     'itertools.chain.from_iterable': lambda a: list(itertools.chain.from_iterable(a)),
     'itertools.zip_longest': lambda *a, **k: list(itertools.zip_longest(*a, **k)),
